@@ -1,8 +1,10 @@
 package checks
 
 import (
+	"encoding/json"
 	"fmt"
 	"hash/fnv"
+	"reflect"
 	"sort"
 	"strings"
 	"sync"
@@ -48,6 +50,18 @@ func rkPayload(fn model.FunctionType, v int) any {
 	panic("harness: rkPayload has no constructor for " + string(fn))
 }
 
+// rkPayloadAlt: a complete value of a list function whose identifiers are {1, 3} instead of rkPayload's {1, 2}: a
+// replacement that takes an element away and brings a new one.
+func rkPayloadAlt(fn model.FunctionType, v int) (any, bool) {
+	if fn != model.FunctionTypeIdentificationListData {
+		return nil, false
+	}
+	return &model.IdentificationListDataType{IdentificationData: []model.IdentificationDataType{
+		{IdentificationId: util.Ptr(model.IdentificationIdType(1)), IdentificationValue: util.Ptr(model.IdentificationValueType(rkToken(v)))},
+		{IdentificationId: util.Ptr(model.IdentificationIdType(3)), IdentificationValue: util.Ptr(model.IdentificationValueType("third"))},
+	}}, true
+}
+
 // rkPartial builds a partial update of one existing element (id 1) of a list function carrying rkToken(v).
 func rkPartial(fn model.FunctionType, v int) any {
 	switch fn {
@@ -59,7 +73,63 @@ func rkPartial(fn model.FunctionType, v int) any {
 	panic("harness: rkPartial has no constructor for " + string(fn))
 }
 
+// rkPayloadOrPartial: the one-element partial update where rkPartial knows the function, a complete value otherwise.
+func rkPayloadOrPartial(fn model.FunctionType, v int) any {
+	if fn == model.FunctionTypeIdentificationListData {
+		return rkPartial(fn, v)
+	}
+	return rkPayload(fn, v)
+}
+
 func rkIsList(fn model.FunctionType) bool { return fn == model.FunctionTypeIdentificationListData }
+
+// rkMutateInPlace changes the object `value` (what the application got from DataCopy, or what it passed to SetData
+// before) IN PLACE so that it carries rkToken(v): a list element of the existing list is changed where the function has
+// a list (the object keeps its list, no new slice is built), a pointed-to scalar otherwise. Reports false if the object
+// has nothing that could be changed that way.
+func rkMutateInPlace(fn model.FunctionType, value any, v int, viaPointer bool) bool {
+	tok := rkToken(v)
+	if rig.IsNil(value) {
+		return false
+	}
+	switch d := value.(type) {
+	case *model.DeviceClassificationUserDataType:
+		if d.UserLabel == nil {
+			return false
+		}
+		*d.UserLabel = model.LabelType(tok)
+		return true
+	case *model.DeviceClassificationManufacturerDataType:
+		if d.DeviceName == nil {
+			return false
+		}
+		*d.DeviceName = model.DeviceClassificationStringType(tok)
+		return true
+	case *model.IdentificationListDataType:
+		if len(d.IdentificationData) == 0 {
+			return false
+		}
+		it := &d.IdentificationData[0]
+		if viaPointer && it.IdentificationValue != nil {
+			*it.IdentificationValue = model.IdentificationValueType(tok)
+		} else {
+			it.IdentificationValue = util.Ptr(model.IdentificationValueType(tok))
+		}
+		return true
+	case *model.NodeManagementUseCaseDataType:
+		if len(d.UseCaseInformation) == 0 || len(d.UseCaseInformation[0].UseCaseSupport) == 0 {
+			return false
+		}
+		us := &d.UseCaseInformation[0].UseCaseSupport[0]
+		if viaPointer && us.UseCaseName != nil {
+			*us.UseCaseName = model.UseCaseNameType(tok)
+		} else {
+			us.UseCaseName = util.Ptr(model.UseCaseNameType(tok))
+		}
+		return true
+	}
+	return false
+}
 
 // rkHas reports whether value (any data model value) carries the marker of operation v.
 func rkHas(value any, v int) bool {
@@ -67,6 +137,149 @@ func rkHas(value any, v int) bool {
 		return false
 	}
 	return strings.Contains(rig.JS(value), `"`+rkToken(v)+`"`)
+}
+
+// rkClone: an independent deep copy of a data model value (pointer to struct) through its wire form.
+func rkClone(v any) any {
+	if rig.IsNil(v) {
+		return nil
+	}
+	b, err := json.Marshal(v)
+	if err != nil {
+		panic("harness: rkClone cannot marshal: " + err.Error())
+	}
+	out := reflect.New(reflect.TypeOf(v).Elem())
+	if err := json.Unmarshal(b, out.Interface()); err != nil {
+		panic("harness: rkClone cannot unmarshal: " + err.Error())
+	}
+	return out.Interface()
+}
+
+// rkReplicaApply folds one message (value + filters, as decoded from the wire) into the copy `replica` a remote feature
+// keeps of function fn, with the harness's own rules of the restricted function exchange (rig.RefApply for lists): no
+// filter = the value replaces the copy; a delete filter removes the selected items (or clears the named elements) first;
+// a partial filter merges the carried items by identifier (or into the one item its selector names; items without
+// identifier into every item); non-list data under a partial filter: the elements present in the value replace those of
+// the copy. shape names the filter combination; modelled=false: a combination these rules do not cover (the copy is
+// returned unchanged).
+func rkReplicaApply(fn model.FunctionType, replica, value any, filters []model.FilterType) (out any, shape string, modelled bool) {
+	var fp, fd *model.FilterType
+	for i := range filters {
+		switch cc := filters[i].CmdControl; {
+		case cc != nil && cc.Partial != nil:
+			fp = &filters[i]
+		case cc != nil && cc.Delete != nil:
+			fd = &filters[i]
+		}
+	}
+	if fp == nil && fd == nil {
+		return rkClone(value), "no-filter", true
+	}
+	li := rig.ListByFn(fn)
+	if li == nil {
+		if fd != nil {
+			return replica, "delete-filter-on-non-list-data", false
+		}
+		if rig.IsNil(value) {
+			return replica, "partial-filter", true
+		}
+		if rig.IsNil(replica) {
+			return rkClone(value), "partial-filter", true
+		}
+		dst, src := reflect.ValueOf(rkClone(replica)).Elem(), reflect.ValueOf(rkClone(value)).Elem()
+		for i := 0; i < src.NumField(); i++ {
+			f := src.Field(i)
+			switch f.Kind() {
+			case reflect.Ptr, reflect.Slice, reflect.Map, reflect.Interface:
+				if f.IsNil() {
+					continue
+				}
+			}
+			if dst.Field(i).CanSet() {
+				dst.Field(i).Set(f)
+			}
+		}
+		return dst.Addr().Interface(), "partial-filter", true
+	}
+	// the identifier a selector names: only single, numeric identifiers are decoded
+	selID := func(f *model.FilterType) (id int, present, ok bool) {
+		if li.SelT == nil {
+			return -1, false, true
+		}
+		sv := reflect.ValueOf(f).Elem().Field(li.SelIdx)
+		if sv.IsNil() {
+			return -1, false, true
+		}
+		if len(li.Keys) != 1 || !li.AllUint {
+			return -1, true, false
+		}
+		keyName := li.ElemT.Field(li.Keys[0]).Name
+		for i := 0; i < sv.Elem().NumField(); i++ {
+			fv := sv.Elem().Field(i)
+			if fv.Kind() == reflect.Ptr && fv.IsNil() {
+				continue
+			}
+			if sv.Elem().Type().Field(i).Name != keyName || fv.Kind() != reflect.Ptr {
+				return -1, true, false // a selector over something else than the identifier
+			}
+			switch fv.Elem().Kind() {
+			case reflect.Uint, reflect.Uint8, reflect.Uint16, reflect.Uint32, reflect.Uint64:
+				id = int(fv.Elem().Uint())
+			default:
+				return -1, true, false
+			}
+			present = true
+		}
+		return id, present, true
+	}
+	u := rig.Update{Kind: "partial", SelKey: -1, DelSel: -1, Items: rig.CloneItems(li.Items(rkClone(value)))}
+	cur := li.Items(rkClone(replica))
+	if fd != nil {
+		shape = "delete-filter"
+		id, present, ok := selID(fd)
+		if !ok {
+			return replica, "delete-filter+selector-not-decoded", false
+		}
+		if present {
+			u.DelSel = id
+			shape += "+selector"
+		}
+		if li.ElT != nil {
+			if ev := reflect.ValueOf(fd).Elem().Field(li.ElIdx); !ev.IsNil() {
+				shape += "+elements"
+				for i := 0; i < ev.Elem().NumField(); i++ {
+					if fv := ev.Elem().Field(i); fv.Kind() == reflect.Ptr && !fv.IsNil() {
+						if sf, found := li.ElemT.FieldByName(ev.Elem().Type().Field(i).Name); found {
+							u.DelElem = append(u.DelElem, sf.Index[0])
+						}
+					}
+				}
+			}
+		}
+		if !present && len(u.DelElem) == 0 {
+			cur = nil // a delete filter that selects nothing in particular: everything goes
+		}
+		u.Kind = "delete-sel"
+	}
+	if fp != nil {
+		if shape != "" {
+			shape += "+"
+			u.Kind = "del+partial"
+		}
+		shape += "partial-filter"
+		id, present, ok := selID(fp)
+		if !ok {
+			return replica, shape + "+selector-not-decoded", false
+		}
+		if present {
+			u.SelKey = id
+			shape += "+selector"
+			if len(u.Items) == 0 {
+				return replica, shape + "-without-item", false
+			}
+		}
+	}
+	return li.MkList(li.RefApply(cur, u)), shape, true
 }
 
 func rkEnt(e []model.AddressEntityType) string {
